@@ -1391,8 +1391,10 @@ impl StoryState {
                 )?;
             }
 
+            let j_choice_threads_obj = j_object.get("choiceThreads");
+
             if let Some(current_choices_obj) = j_object.get("currentChoices") {
-                self.current_flow.current_choices = json_read::jarray_to_runtime_obj_list(
+                let loaded_choices = json_read::jarray_to_runtime_obj_list(
                     current_choices_obj
                         .as_array()
                         .ok_or_else(|| StoryError::BadJson("Invalid current choices".to_string()))?,
@@ -1405,13 +1407,24 @@ impl StoryState {
                     })
                 })
                 .collect::<Result<Vec<Rc<Choice>>, StoryError>>()?;
-            }
 
-            let j_choice_threads_obj = j_object.get("choiceThreads");
-            self.current_flow.load_flow_choice_threads(
-                j_choice_threads_obj,
-                self.main_content_container.clone(),
-            )?;
+                // The loaded choices only stay in the flow together with their
+                // threads: a choice of the flow always knows its thread.
+                let previous_choices =
+                    std::mem::replace(&mut self.current_flow.current_choices, loaded_choices);
+                if let Err(e) = self.current_flow.load_flow_choice_threads(
+                    j_choice_threads_obj,
+                    self.main_content_container.clone(),
+                ) {
+                    self.current_flow.current_choices = previous_choices;
+                    return Err(e);
+                }
+            } else {
+                self.current_flow.load_flow_choice_threads(
+                    j_choice_threads_obj,
+                    self.main_content_container.clone(),
+                )?;
+            }
         }
 
         self.output_stream_dirty();
